@@ -144,12 +144,12 @@ def gen_weight(rnd, vals):
 
 
 def gen_net(rnd, n_nodes=None, pool=None, max_types=3, depth=None, edge_density=None, allow=None, forbid=(),
-            alg_out_p=0.25, n_edges=None, funcs=FUNCS, same_type_bias=False, unique_types=False):
+            alg_out_p=0.25, n_edges=None, funcs=FUNCS, same_type_bias=False, unique_types=False, label_pool=None):
     """Random network spec.  `forbid`: risk features that must not occur (resampled away).
     Returns (spec, features, risk)."""
     for attempt in range(3000):
         spec, feats, risk = _gen_net(rnd, n_nodes, pool, max_types, depth, edge_density, alg_out_p, n_edges, funcs,
-                                     same_type_bias, unique_types)
+                                     same_type_bias, unique_types, label_pool)
         if allow is not None and not allow(spec, feats, risk):
             continue
         if set(forbid) & set(risk):
@@ -159,7 +159,7 @@ def gen_net(rnd, n_nodes=None, pool=None, max_types=3, depth=None, edge_density=
 
 
 def _gen_net(rnd, n_nodes, pool, max_types, depth, edge_density, alg_out_p, n_edges, funcs, same_type_bias,
-             unique_types=False):
+             unique_types=False, label_pool=None):
     pool = pool or VAR_POOL
     vals = Vals(rnd)
     n_types = rnd.randint(1, max_types) if not unique_types else (n_nodes or rnd.randint(1, max_types))
@@ -231,6 +231,11 @@ def _gen_net(rnd, n_nodes, pool, max_types, depth, edge_density, alg_out_p, n_ed
         n_nodes = len(tnames)
     for i in range(n_nodes):
         lab = rnd.choice(['n', 'p', 'node', 'a', 'b']) + str(i)
+        if label_pool and rnd.random() < 0.6:
+            # node labels that coincide with variable / operator names used in the model
+            free = [x for x in label_pool if x not in labels and x != 'all']
+            if free:
+                lab = rnd.choice(free)
         labels.append(lab)
         node_of[lab] = tnames[i] if unique_types else rnd.choice(tnames) if not same_type_bias else tnames[min(len(tnames) - 1, int(rnd.random() ** 2 * len(tnames)))]
     # hierarchy
